@@ -315,6 +315,26 @@ Qed.
 Lemma firstn_le_enc w : forall j v, firstn w (le_enc (w + j) v) = le_enc w v.
 Proof. induction w as [|w IH]; intros j v; cbn [Nat.add le_enc firstn]; auto. now rewrite IH. Qed.
 
+Lemma cfg_ok_repaired items vs : cfg_err repaired items vs = None <-> 1 <= items /\ 1 <= vs /\ 3 + vs < 256.
+Proof.
+  unfold cfg_err. cbn [v_check_vs repaired andb].
+  destruct (vs =? 0) eqn:E0; [apply Nat.eqb_eq in E0; split; [discriminate|lia]|]. apply Nat.eqb_neq in E0.
+  destruct (255 <? vs) eqn:E1; [apply Nat.ltb_lt in E1; split; [discriminate|lia]|]. apply Nat.ltb_ge in E1.
+  destruct (252 <? vs) eqn:E2; [apply Nat.ltb_lt in E2; split; [discriminate|lia]|]. apply Nat.ltb_ge in E2.
+  destruct (items =? 0) eqn:E3; [apply Nat.eqb_eq in E3; split; [discriminate|lia]|]. apply Nat.eqb_neq in E3.
+  split; [lia|reflexivity].
+Qed.
+
+Lemma fmt_sized_ok vs nb m : 3 + vs < 256 -> fmt_ok (fmt_sized vs nb m) /\ entry_sized (fmt_sized vs nb m).
+Proof. intros H. split; [exact H|]. intros v Hv. exact Hv. Qed.
+
+Lemma fmt_legacy8_ok fs nb : (fs < 2 ^ 64)%N -> fmt_ok (fmt_legacy8 fs nb) /\ entry_sized (fmt_legacy8 fs nb).
+Proof.
+  intros H. pose proof (int_width_le (legacy_fs fs) (legacy_fs_lt fs H)) as Hw. split.
+  - unfold fmt_ok. cbn [f_evs fmt_legacy8]. lia.
+  - intros v Hv. cbn [f_vt f_evs f_svs fmt_legacy8] in *. rewrite firstn_length. lia.
+Qed.
+
 Section Formats.
 Variable hash : N -> list N -> N.
 Variable bucket_of : nat -> list N -> nat.
@@ -338,16 +358,6 @@ Definition lookup_sized (file : list N) (k : list N) : res :=
   | Some (vs, nb, _, hlen) => lookup_at vs hlen nb file k
   end.
 
-Lemma cfg_ok_repaired items vs : cfg_err repaired items vs = None <-> 1 <= items /\ 1 <= vs /\ 3 + vs < 256.
-Proof.
-  unfold cfg_err. cbn [v_check_vs repaired andb].
-  destruct (vs =? 0) eqn:E0; [apply Nat.eqb_eq in E0; split; [discriminate|lia]|]. apply Nat.eqb_neq in E0.
-  destruct (255 <? vs) eqn:E1; [apply Nat.ltb_lt in E1; split; [discriminate|lia]|]. apply Nat.ltb_ge in E1.
-  destruct (252 <? vs) eqn:E2; [apply Nat.ltb_lt in E2; split; [discriminate|lia]|]. apply Nat.ltb_ge in E2.
-  destruct (items =? 0) eqn:E3; [apply Nat.eqb_eq in E3; split; [discriminate|lia]|]. apply Nat.eqb_neq in E3.
-  split; [lia|reflexivity].
-Qed.
-
 Lemma build_sized_shape items vs m kvs file : build_sized repaired items vs m kvs = BOk file ->
   exists rest, file = hdr_sized vs (num_buckets items) m ++ rest.
 Proof.
@@ -368,9 +378,6 @@ Proof.
   apply cfg_ok_repaired in Ec. destruct Ec as [Hi [Hv Hs]].
   apply open_sized_hdr; auto; try lia. apply num_buckets_pos. lia.
 Qed.
-
-Lemma fmt_sized_ok vs nb m : 3 + vs < 256 -> fmt_ok (fmt_sized vs nb m) /\ entry_sized (fmt_sized vs nb m).
-Proof. intros H. split; [exact H|]. intros v Hv. exact Hv. Qed.
 
 (* every inserted key is found with exactly its value: any hash, any declared count, value size, metadata *)
 Theorem sized_found items vs m kvs file k v :
@@ -478,6 +485,42 @@ Proof.
   unfold supported. tauto.
 Qed.
 
+(* a key sharing (bucket, 24-bit hash under the bucket's mined domain) with no inserted key is "not found" *)
+Theorem sized_absent items vs m kvs file k :
+  meta_ok m -> (N.of_nat (num_buckets items) < 2 ^ 32)%N ->
+  build_sized repaired items vs m kvs = BOk file ->
+  (N.of_nat (length file) < 256 ^ 6)%N -> (N.of_nat (length kvs) < 256 ^ 4)%N ->
+  (forall d k0 v0, d < attempts -> In (k0, v0) kvs ->
+     bucket_of (num_buckets items) k0 = bucket_of (num_buckets items) k ->
+     ~ collides_keys hash d (bucket_kvs bucket_of (num_buckets items) (bucket_of (num_buckets items) k) kvs) ->
+     h24 hash (N.of_nat d) k0 <> h24 hash (N.of_nat d) k) ->
+  lookup_sized file k = NotFound.
+Proof.
+  intros Hm Hnb Hb Hsize Hcount Hno.
+  unfold lookup_sized. rewrite (sized_open items vs m kvs file Hm Hnb Hb).
+  unfold build_sized in Hb. destruct (cfg_err repaired items vs) eqn:Ec; [discriminate|].
+  apply cfg_ok_repaired in Ec. destruct Ec as [Hi [Hv Hs]].
+  destruct (fmt_sized_ok vs (num_buckets items) m Hs) as [Hf He].
+  apply (fmt_absent hash bucket_of bucket_of_lt (fmt_sized vs (num_buckets items) m) _ kvs file k Hf He
+           (num_buckets_pos items ltac:(lia)) Hb Hsize Hcount).
+  intros d k0 v0 Hmine Hin Hbk. apply (mine_sound hash) in Hmine. destruct Hmine as [Hnd Hd].
+  apply (Hno d k0 v0); auto; [lia|].
+  intros C. apply C. rewrite stored_bucket in Hnd. unfold transformed, fitted in Hnd. rewrite !map_map in Hnd. exact Hnd.
+Qed.
+
+(* the PINNED builder (no key-length check) given one key of exactly 65536 bytes produces the file that the
+   empty key would give: the inserted key is lost and the empty key appears *)
+Theorem sized_pinned_long_key_as_empty items vs m K v :
+  cfg_err repaired items vs = None -> num_buckets items = 1 -> N.of_nat (length K) = 65536%N ->
+  build_sized pinned items vs m [(K, v)] = build_sized repaired items vs m [([], v)].
+Proof.
+  intros Hc Hn HK. unfold build_sized. rewrite Hc.
+  assert (Hp : cfg_err pinned items vs = None).
+  { unfold cfg_err in *. cbn [v_check_vs pinned repaired andb] in *.
+    destruct (vs =? 0); [discriminate|]. destruct (255 <? vs); [discriminate|]. destruct (252 <? vs); [discriminate|]. exact Hc. }
+  rewrite Hp, Hn. apply (pinned_long_key_as_empty hash bucket_of bucket_of_lt). exact HK.
+Qed.
+
 (* ---------------------------------------------------------------- deprecated/compactindex36 *)
 (* NewBuilder(items, fileSize) has no validation; with 0 items there is no bucket and Insert divides by zero *)
 Definition build_legacy36 (var : variant) (items : nat) (fs : N) (kvs : list kv) : bres :=
@@ -561,13 +604,6 @@ Definition lookup_legacy8 (file : list N) (k : list N) : res8 :=
          | ReadErr => ReadErr8
          end
   end.
-
-Lemma fmt_legacy8_ok fs nb : (fs < 2 ^ 64)%N -> fmt_ok (fmt_legacy8 fs nb) /\ entry_sized (fmt_legacy8 fs nb).
-Proof.
-  intros H. pose proof (int_width_le (legacy_fs fs) (legacy_fs_lt fs H)) as Hw. split.
-  - unfold fmt_ok. cbn [f_evs fmt_legacy8]. lia.
-  - intros v Hv. cbn [f_vt f_evs f_svs fmt_legacy8] in *. rewrite firstn_length. lia.
-Qed.
 
 Lemma build_legacy8_shape items fs kvs file : 0 < items -> build_legacy8 repaired items fs kvs = BOk file ->
   build_fmt repaired (fmt_legacy8 fs (num_buckets items)) (num_buckets items) (as_bytes8 kvs) = BOk file /\
